@@ -2,6 +2,7 @@ package calcium
 
 import (
 	"context"
+	"sort"
 	"sync"
 
 	enginefactory "github.com/projecteru2/core/engine/factory"
@@ -306,10 +307,16 @@ func (c *Calcium) filterNodes(ctx context.Context, nodeFilter *types.NodeFilter)
 		if len(ns) == 0 {
 			return
 		}
-		// sorted by nodenames
-		nodenames := utils.Map(ns, func(node *types.Node) string { return node.Name })
+		// sorted by nodenames (the nodes themselves, not a copy of their names)
+		sort.SliceStable(ns, func(i, j int) bool { return ns[i].Name < ns[j].Name })
 		// unique
-		p := utils.Unique(nodenames, func(i int) string { return nodenames[i] })
+		p := 0
+		for i := range ns {
+			if i == 0 || ns[i].Name != ns[i-1].Name {
+				ns[p] = ns[i]
+				p++
+			}
+		}
 		ns = ns[:p]
 	}()
 
